@@ -520,3 +520,86 @@ fn call_with_args_arity_error_leaves_no_residue() {
     call_with_args_check(2, 1, 0, false);
     call_with_args_check(0, 1, 0, false);
 }
+
+
+// ------------------------------------------------------------------ conditional / sequencing arms of the interpreter loop
+fn any_test_value() -> SteelVal {
+    match kani::any::<u8>() % 3 {
+        0 => SteelVal::BoolV(kani::any()),
+        1 => SteelVal::IntV(kani::any()),
+        _ => SteelVal::Void,
+    }
+}
+
+#[kani::proof]
+#[kani::unwind(7)]
+fn if_jmp_arm_contract() {
+    // IF
+    let (mut stack, vals) = any_stack();
+    let test = any_test_value();
+    let is_false = matches!(&test, SteelVal::BoolV(false));
+    stack.push(test);
+    let mut t = thread_with(stack, 0, lambda(0, false, 1), 0);
+    let target: u32 = kani::any();
+    kani::assume(target < (1 << 24));
+    let ip0: usize = kani::any();
+    kani::assume(ip0 < 1000);
+    let mut vm = core_on(&mut t, 0, code(1));
+    vm.ip = ip0;
+    assert!(vm.arm_if(u24::from_u32(target)).is_ok());
+    let ip1 = vm.ip;
+    // JMP
+    assert!(vm.arm_jmp(u24::from_u32(target)).is_ok());
+    let ip2 = vm.ip;
+    drop(vm);
+    assert!(ip1 == if is_false { target as usize } else { ip0 + 1 }, "IF: only #f selects the else branch");
+    assert!(ip2 == target as usize, "JMP continues at its target");
+    assert!(t.stack.len() == L, "IF consumed exactly the test value, JMP nothing");
+    let mut i = 0;
+    while i < L {
+        assert!(int_at(&t.stack, i) == Some(vals[i]));
+        i += 1;
+    }
+    // POPSINGLE
+    let mut vm = core_on(&mut t, 0, code(1));
+    vm.ip = ip0;
+    assert!(vm.arm_popsingle().is_ok());
+    let ip3 = vm.ip;
+    drop(vm);
+    assert!(ip3 == ip0 + 1 && t.stack.len() == L - 1);
+    let mut i = 0;
+    while i + 1 < L {
+        assert!(int_at(&t.stack, i) == Some(vals[i]));
+        i += 1;
+    }
+}
+
+fn let_end_scope_check(frame_offset: usize, nvars: usize) {
+    // [.. frame_offset values below the frame ..][k values of the function before the let][nvars let variables][body value]
+    let (stack, vals) = any_stack();
+    let k = L - 1 - nvars - frame_offset; // slots of the frame that precede the let
+    let mut t = thread_with(stack, frame_offset, lambda(0, false, 1), 0);
+    let cur = RootedInstructions::leak(vec![DenseInstruction::new(OpCode::LETENDSCOPE, u24::from_usize(k))]);
+    let mut vm = core_on(&mut t, frame_offset, cur);
+    vm.ip = 0;
+    assert!(let_end_scope_handler(&mut vm).is_ok());
+    let ip1 = vm.ip;
+    drop(vm);
+    assert!(ip1 == 1);
+    assert!(t.stack.len() == frame_offset + k + 1, "exactly the let's variables are removed");
+    assert!(int_at(&t.stack, frame_offset + k) == Some(vals[L - 1]), "the body's value stays on top");
+    let mut i = 0;
+    while i < frame_offset + k {
+        assert!(int_at(&t.stack, i) == Some(vals[i]), "everything below the let is untouched");
+        i += 1;
+    }
+}
+
+#[kani::proof]
+#[kani::unwind(7)]
+fn let_end_scope_contract() {
+    let_end_scope_check(0, 0);
+    let_end_scope_check(0, 2);
+    let_end_scope_check(2, 1);
+    let_end_scope_check(1, 2);
+}
